@@ -127,7 +127,7 @@ def main(argv=None):
     t0 = time.time()
     load_contracts()
     names = [n for n, td in TASKS.items() if prop in td.props]
-    evid_path = os.path.join(ROOT, "evidence", f"{prop}.json")
+    evid_path = os.path.join(os.environ.get("VERIF_EVIDENCE_DIR") or os.path.join(ROOT, "evidence"), f"{prop}.json")
     os.makedirs(os.path.dirname(evid_path), exist_ok=True)
     if not names:
         print(f"CHECKER-BROKEN: no task serves {prop}")
